@@ -133,6 +133,10 @@ const HELPERS: &[(&str, &str)] = &[
     // a tail call whose first operand is the bare variable and whose second closes over it
     ("make-vc", "(define (make-vc v) (cons v (lambda () (set! v (+ v 1)) v)))"),
     ("make-vv", "(define (make-vv v) (vector v (lambda () (set! v (+ v 2)) v) v))"),
+    // a parameter, and an internal definition, that carry the name of a top-level procedure and
+    // are called in tail position: the call reaches the local binding
+    ("call-f2", "(define (call-f2 f2 a) (f2 a 1))"),
+    ("shadow-f0", "(define (shadow-f0 k) (define (f0) (+ k 70)) (f0))"),
     ("make-bctr", "(define (make-bctr k) (begin (define n k) (lambda () (set! n (+ n 1)) n)))"),
     (
         "make-cctr",
@@ -1277,6 +1281,37 @@ impl Gen {
                 }
                 true
             }
+            44 => {
+                // local bindings that shadow top-level procedures, called in tail position
+                self.need("f0");
+                self.need("f2");
+                let k = self.small_lit();
+                if self.rng.chance(1, 2) {
+                    self.need("call-f2");
+                    let body = if self.rng.chance(1, 2) { call("-", vec![sym("p"), sym("q")]) } else { call("*", vec![sym("p"), int(10)]) };
+                    self.emit(
+                        call("call-f2", vec![list(vec![sym("lambda"), list(vec![sym("p"), sym("q")]), body]), int(k)]),
+                        "tail-call-through-shadowing-parameter",
+                        vec![],
+                        false,
+                    );
+                } else {
+                    self.need("shadow-f0");
+                    self.emit(call("shadow-f0", vec![int(k)]), "tail-call-of-shadowing-internal-definition", vec![], false);
+                }
+                true
+            }
+            45 => {
+                // eqv? on two closures: what it answers is left open, that it answers is not
+                let cs = self.names_with(Role::Counter);
+                if cs.len() < 2 {
+                    return false;
+                }
+                let a = self.rng.pick(&cs).clone();
+                let b = self.rng.pick(&cs).clone();
+                self.forms.push(FormRec { text: format!("(eqv? {} {})", a, b), kind: "unjudged:eqv-on-closures".to_string(), roots: vec![], write: false });
+                true
+            }
             41 => {
                 // a global integer defined again: still one binding, which later assignments reach
                 let Some(g) = self.pick_name(Role::Int) else { return false };
@@ -2238,7 +2273,7 @@ pub fn generate_a(seed: u64, quick: bool, faults: bool) -> Value {
     let hash_seed = rng.next_u64() | 1;
     // swarm configuration
     let steps = if quick { rng.range(10, 40) } else { rng.range(10, 60) } as usize;
-    let nops = 44;
+    let nops = 46;
     let mut weights: Vec<u32> = (0..nops).map(|_| if rng.chance(1, 4) { 0 } else { rng.range(1, 6) as u32 }).collect();
     if weights.iter().all(|w| *w == 0) {
         weights[0] = 1;
@@ -2433,6 +2468,19 @@ fn execute_a(case: Value) -> RunResult {
                 return res;
             }
         };
+        if kind.starts_with("unjudged:") {
+            // only that the evaluation comes back matters (a panic does not count as coming back)
+            let got = real.eval_text(&text);
+            res.log.push(format!("{:>3} [{}] {} => {} | (not judged)", step, kind, text, got.short()));
+            if let Outcome::Panic(p) = &got {
+                res.violation = Some(Violation {
+                    signature: format!("{}/panic/{}", mode, p.signature()),
+                    detail: json!({"step": step, "form": text, "panic": p.message}),
+                });
+                break;
+            }
+            continue;
+        }
         if let Some(want) = kind.strip_prefix("faultx:") {
             // nothing is evaluated by the model: the form must fail with the stated kind before
             // it has any effect, and the comparisons of the following forms see to the rest
